@@ -29,11 +29,17 @@ type world struct {
 	asset map[string]uint64 // denom -> asset id
 	app   map[string]uint64 // app name -> id
 	notes []string
+	omit  map[string]bool // optional configuration records that governance has not (yet) written in this world
+	twaN  int             // oracle window size the fixture prices are consistent with (default 1)
 	hist  []histRec // hooks executed while the history of the state was produced (judged like plain blocks)
 }
 
 type histRec struct {
 	What     string
+	Oracle   bool // a band price round
+	Zero     bool // ... that carried a zero rate
+	Rebuild  bool // ... with a positive rate after a zero-rate outage
+	Silent   bool // ... in which band did not answer
 	Returned bool
 	PanicS   string
 }
@@ -55,7 +61,7 @@ func newWorld() *world {
 		}
 		funds = append(funds, sim.Fund{Name: u, Coins: cs})
 	}
-	return &world{Env: sim.New(funds), asset: map[string]uint64{}, app: map[string]uint64{}, notes: []string{}}
+	return &world{Env: sim.New(funds), asset: map[string]uint64{}, app: map[string]uint64{}, notes: []string{}, omit: map[string]bool{}, twaN: 1}
 }
 
 func (w *world) must(err error, what string) {
@@ -93,8 +99,16 @@ func (w *world) addAsset(name, denom string, priced bool, twa uint64) uint64 {
 }
 
 func (w *world) setPrice(id uint64, price uint64, active bool) {
+	n := w.twaN
+	if n < 1 {
+		n = 1
+	}
+	win := make([]uint64, n)
+	for i := range win {
+		win[i] = price
+	}
 	w.App.MarketKeeper.SetTwa(w.Ctx, markettypes.TimeWeightedAverage{AssetID: id, ScriptID: 10, Twa: price, CurrentIndex: 0,
-		IsPriceActive: active, PriceValue: []uint64{price}})
+		IsPriceActive: active, PriceValue: win, DiscardedHeightDiff: -1})
 }
 
 func (w *world) addApp(name, short string) uint64 {
@@ -181,11 +195,22 @@ func (w *world) base(uopt2 string) {
 		StabilityFee: dec("0.02"), ClosingFee: dec("0"), LiquidationPenalty: dec("0.1"), DrawDownFee: dec("0.01"), IsVaultActive: true,
 		DebtCeiling: sdk.NewInt(1000000000000), DebtFloor: sdk.NewInt(100000), MinCr: dec("1.4"), PairName: "OSMO-B",
 		AssetOutOraclePrice: false, AssetOutPrice: 1000000, MinUsdValueLeft: 1000000}), "ext pair 2")
-	w.must(w.App.Rewardskeeper.WhitelistAppIDVault(w.Ctx, w.app["osmovlt"]), "vault interest whitelist 2")
-	w.whitelist("osmovlt", true, true)
-	w.must(w.App.Rewardskeeper.WhitelistAppIDVault(w.Ctx, w.app["harbor"]), "vault interest whitelist") // stability fee accrues
-	w.whitelist("harbor", true, true)
-	w.whitelist("commodo", true, false)
+	if !w.omit["rewards_wl"] {
+		w.must(w.App.Rewardskeeper.WhitelistAppIDVault(w.Ctx, w.app["osmovlt"]), "vault interest whitelist 2")
+		w.must(w.App.Rewardskeeper.WhitelistAppIDVault(w.Ctx, w.app["harbor"]), "vault interest whitelist") // stability fee accrues
+	}
+	if !w.omit["wl_osmovlt"] {
+		w.whitelist("osmovlt", true, true)
+	}
+	if !w.omit["wl_harbor"] {
+		w.whitelist("harbor", true, true)
+	}
+	if !w.omit["wl_commodo"] {
+		w.whitelist("commodo", true, false)
+	}
+	if w.omit["aucparams"] {
+		return
+	}
 	w.App.NewaucKeeper.SetAuctionParams(w.Ctx, auctionsV2types.AuctionParams{AuctionDurationSeconds: 3600, Step: dec("0.1"),
 		WithdrawalFee: dec("0.0"), ClosingFee: dec("0.0"), MinUsdValueLeft: 100000, BidFactor: dec("0.1"), LiquidationPenalty: dec("0.1"),
 		AuctionBonus: dec("0.0")})
@@ -251,13 +276,27 @@ func (w *world) mintGov() {
 
 // collector configuration of harbor for its debt asset (asset 3): lookup table + auction mapping (wasm-binding entry points).
 func (w *world) collector(surplus, debt bool, surplusThreshold, debtThreshold, lot int64) {
-	w.must(w.App.CollectorKeeper.WasmSetCollectorLookupTable(w.Ctx, &bindings.MsgSetCollectorLookupTable{AppID: w.app["harbor"],
-		CollectorAssetID: w.asset["uasset3"], SecondaryAssetID: w.asset["uharbor"], SurplusThreshold: sdk.NewInt(surplusThreshold),
+	w.lookup("harbor", "uasset3", surplusThreshold, debtThreshold, lot)
+	w.mapping("harbor", "uasset3", surplus, debt)
+}
+
+func (w *world) lookup(app, denom string, surplusThreshold, debtThreshold, lot int64) {
+	w.must(w.App.CollectorKeeper.WasmSetCollectorLookupTable(w.Ctx, &bindings.MsgSetCollectorLookupTable{AppID: w.app[app],
+		CollectorAssetID: w.asset[denom], SecondaryAssetID: w.asset["uharbor"], SurplusThreshold: sdk.NewInt(surplusThreshold),
 		DebtThreshold: sdk.NewInt(debtThreshold), LockerSavingRate: dec("0.1"), LotSize: sdk.NewInt(lot), BidFactor: dec("0.01"),
 		DebtLotSize: sdk.NewInt(2000000)}), "collector lookup")
-	w.must(w.App.CollectorKeeper.WasmSetAuctionMappingForApp(w.Ctx, &bindings.MsgSetAuctionMappingForApp{AppID: w.app["harbor"],
-		AssetIDs: w.asset["uasset3"], IsSurplusAuctions: surplus, IsDebtAuctions: debt, IsDistributor: false,
+}
+
+func (w *world) mapping(app, denom string, surplus, debt bool) {
+	w.must(w.App.CollectorKeeper.WasmSetAuctionMappingForApp(w.Ctx, &bindings.MsgSetAuctionMappingForApp{AppID: w.app[app],
+		AssetIDs: w.asset[denom], IsSurplusAuctions: surplus, IsDebtAuctions: debt, IsDistributor: false,
 		AssetOutOraclePrices: false, AssetOutPrices: 1000000}), "auction mapping")
+}
+
+// killSwitch: the esm admin switches an app's circuit breaker on (real MsgKillRequest).
+func (w *world) killSwitch(app string) {
+	r := w.try(&esmtypes.MsgKillRequest{From: esmtypes.DefaultAdmin[0], KillSwitchParams: &esmtypes.KillSwitchParams{AppId: w.app[app], BreakerEnable: true}})
+	w.note("kill switch %s ok=%v %s", app, r.OK, short(r.Err))
 }
 
 // esm: emergency-shutdown parameters of harbor, deposit of governance tokens up to the target, execution (real messages).
